@@ -79,7 +79,7 @@ def _cases(tier, rng):
         if not any(max(d.get("shape", (1,)), default=1) >= 2 for d in prog["inputs"].values()):
             continue
         for st in STORAGES:
-            yield {"prog": prog, "storage": st}
+            yield {"prog": prog, "storage": st, "scoped": (q + len(st)) % 4 == 0}
         q += 1
 
 
@@ -107,21 +107,31 @@ def _check(case):
     from pipefunc.map._run_info import RunInfo
     prog, st = case["prog"], case["storage"]
     want, _ = progs.denote(prog)
-    outs = [o for f in prog["funcs"] for o in f["outputs"]]
+    pre = "foo." if case.get("scoped") else ""
+    want = {pre + k: v for k, v in want.items()}
+    outs = [pre + o for f in prog["funcs"] for o in f["outputs"]]
     folder = tempfile.mkdtemp(prefix="vf_c04_")
     bad = []
     try:
-        p = progs.build_pipeline(prog)
+        p = progs.build_pipeline(prog, scope="foo") if pre else progs.build_pipeline(prog)
         progs.set_log(None)
+        real_in = {pre + k: v for k, v in progs.real_inputs(prog).items()}
+        mk = progs.map_kwargs(prog)
+        if pre and mk:
+            mk = {"internal_shapes": {pre + k: v for k, v in mk["internal_shapes"].items()}}
+        stor = _storage_arg(prog, st)
+        if pre and isinstance(stor, dict):
+            stor = {(k if k == "" else (tuple(pre + x for x in k) if isinstance(k, tuple) else pre + k)): v
+                    for k, v in stor.items()}
         try:
-            res = p.map(progs.real_inputs(prog), run_folder=folder, parallel=False, storage=_storage_arg(prog, st), **progs.map_kwargs(prog))
+            res = p.map(real_in, run_folder=folder, parallel=False, storage=stor, **mk)
         except Exception as e:  # noqa: BLE001
             return [f"map-raised-{type(e).__name__}: {str(e)[:150]}"]
         produced = {o: progs.to_nested(res[o].output) for o in outs}
         for o in outs:
             if produced[o] != want[o]:
                 bad.append(f"run-result-differs:{o}")
-        given = {"inputs": {k: progs.to_nested(v) for k, v in progs.real_inputs(prog).items()}}
+        given = {"inputs": {k: progs.to_nested(v) for k, v in real_in.items()}}
         info0 = None
         # (i) + (iii): same process, twice
         for rep in (1, 2):
@@ -166,6 +176,7 @@ def _check(case):
             for f in prog["funcs"]:
                 if f.get("spec") and f["spec"]["inputs"]:
                     for o, axes in f["spec"]["outputs"]:
+                        o = pre + o
                         if o in xr:
                             dims, vals = xr[o]
                             if list(dims) != list(axes):
@@ -178,7 +189,7 @@ def _check(case):
 
 
 def _describe(case):
-    return {"program": progs.describe(case["prog"]), "storage": case["storage"]}
+    return {"program": progs.describe(case["prog"]), "storage": case["storage"], "scoped": case.get("scoped", False)}
 
 
 def bounded_checks():
